@@ -1277,6 +1277,149 @@ class Performance(object):
         return pop
 
 
+XAXES = ["leadtime", "time", "location", "month", "leadtimeday"]
+
+
+def points_at(J, ax, label, exp, name="points", tol=1e-5):
+    """Exactly one line labelled `label` with one point per entry of exp; entries that are None are not judged
+    (the definition is undefined there and the drawn value is whatever the division gave)."""
+    ls = lines_with(ax, label)
+    if len(ls) != 1:
+        J.fail(name + "/series-count", "%d lines labelled %r (labels: %r)" % (len(ls), label, [l["label"] for l in ax["lines"]][:12]))
+        return False
+    gx, gy = list(ls[0]["x"]), list(ls[0]["y"])
+    if len(gx) != len(exp):
+        J.fail(name + "/count", "series %r has %d points, the axis has %d slices" % (label, len(gx), len(exp)))
+        return False
+    for k, e in enumerate(exp):
+        if e is None:
+            continue
+        if not (cmpx.close(gx[k], e[0], tol) and cmpx.close(gy[k], e[1], tol)):
+            J.fail(name, "series %r slice %d drawn at (%r, %r); the definition on that slice's valid cases gives (%r, %r)" % (label, k, gx[k], gy[k], e[0], e[1]))
+            return False
+    return True
+
+
+@diagram("scatter-x")
+class ScatterX(object):
+    """-m scatter -x <axis>: one point per slice at (mean obs, mean fcst) of the slice's valid pairs."""
+    def args(self, case, spec):
+        return ["-m", "scatter", "-x", case["opt"]["axis"], "-simple"]
+
+    def options(self, draw, spec):
+        return {"axis": draw(st.sampled_from(XAXES))}
+
+    def verify(self, J, dump, ds, spec, case, names):
+        ax = data_axes(dump)[0]
+        J.order(ax, names)
+        axis = case["opt"]["axis"]
+        pop = 0
+        for i, nm in enumerate(names):
+            exp = []
+            for k in range(ds.n_slices(axis)):
+                cs = pairs(ds, i, axis, k)
+                exp.append((mean(o for o, f in cs), mean(f for o, f in cs)))
+            points_at(J, ax, nm, exp)
+            pop = max(pop, sum(1 for e in exp if e[0] == e[0]))
+        return pop
+
+
+@diagram("taylor-x")
+class TaylorX(object):
+    """-m taylor -x <axis>: one point per slice, normalised by the slice's own observation spread."""
+    def args(self, case, spec):
+        return ["-m", "taylor", "-x", case["opt"]["axis"]]
+
+    def options(self, draw, spec):
+        return {"axis": draw(st.sampled_from(XAXES))}
+
+    def verify(self, J, dump, ds, spec, case, names):
+        ax = data_axes(dump)[0]
+        axis = case["opt"]["axis"]
+        n = ds.n_slices(axis)
+        pop = 0
+        for i, nm in enumerate(names):
+            exp = []
+            for k in range(n):
+                cs = pairs(ds, i, axis, k)
+                e = None
+                if len(cs) >= 2:
+                    sf = model.aggregate("std", [f for o, f in cs])
+                    so = model.aggregate("std", [o for o, f in cs])
+                    r = model.pearson([o for o, f in cs], [f for o, f in cs])
+                    if r is not None and so > 0 and sf > 0:
+                        sn = sf / so if n > 1 else sf
+                        e = (sn * r, sn * math.sqrt(max(0.0, 1 - r * r)))
+                exp.append(e)
+            points_at(J, ax, nm, exp)
+            pop = max(pop, sum(1 for e in exp if e is not None))
+        if n > 1:
+            ls = lines_with(ax, "Observed")
+            if len(ls) != 1 or not (eq_arr(ls[0]["x"], [1.0], 1e-9) and eq_arr(ls[0]["y"], [0.0], 1e-9)):
+                J.fail("obs-point", "observation point of the normalised diagram %r, expected (1, 0)" % (ls and (ls[0]["x"], ls[0]["y"]),))
+        return pop
+
+
+@diagram("performance-x", max_inputs=2)
+class PerformanceX(object):
+    """-m performance -x <axis>: one (success ratio, probability of detection) point per slice."""
+    def args(self, case, spec):
+        return ["-m", "performance", "-r", edges_arg([case["opt"]["t"]]), "-b", case["opt"]["bin"], "-x", case["opt"]["axis"], "-simple"]
+
+    def options(self, draw, spec):
+        return {"t": draw(st.sampled_from([0.0, 0.25, -1.0, 2.5])), "bin": draw(st.sampled_from(["above", "below", "above=", "below="])),
+                "axis": draw(st.sampled_from(XAXES))}
+
+    def verify(self, J, dump, ds, spec, case, names):
+        ax = data_axes(dump)[0]
+        b, t, axis = case["opt"]["bin"], case["opt"]["t"], case["opt"]["axis"]
+        pop = 0
+        for i, nm in enumerate(names):
+            exp = []
+            for k in range(ds.n_slices(axis)):
+                cs = pairs(ds, i, axis, k)
+                a = sum(1 for o, f in cs if model.in_event(b, f, t) and model.in_event(b, o, t))
+                bb = sum(1 for o, f in cs if model.in_event(b, f, t) and not model.in_event(b, o, t))
+                c = sum(1 for o, f in cs if not model.in_event(b, f, t) and model.in_event(b, o, t))
+                sr = 1 - bb / float(a + bb) if a + bb else float("nan")
+                pod = a / float(a + c) if a + c else float("nan")
+                exp.append((sr, pod))
+            points_at(J, ax, nm, exp, tol=1e-9)
+            pop = max(pop, sum(1 for e in exp if e[0] == e[0] and e[1] == e[1]))
+        return pop
+
+
+@diagram("bsdecomp-x", flavor="prob")
+class BsDecompX(object):
+    """-m bsdecomp -x <axis>: one (reliability, resolution) point per slice."""
+    def args(self, case, spec):
+        T = prob_threshold(spec)
+        if not T:
+            return None
+        return ["-m", "bsdecomp", "-r", edges_arg(T[:1]), "-b", case["opt"]["bin"], "-x", case["opt"]["axis"]]
+
+    def options(self, draw, spec):
+        return {"bin": draw(st.sampled_from(["above", "below", "above=", "below="])), "axis": draw(st.sampled_from(XAXES))}
+
+    def verify(self, J, dump, ds, spec, case, names):
+        ax = data_axes(dump)[0]
+        t = prob_threshold(spec)[0]
+        b, axis = case["opt"]["bin"], case["opt"]["axis"]
+        pop = 0
+        for i, nm in enumerate(names):
+            exp = []
+            for k in range(ds.n_slices(axis)):
+                cs = [(1 if model.in_event(b, o, t) else 0, prob_event(b, p)) for o, p in pcases(ds, i, t, axis, k)]
+                if not cs or any(model.near_decimal_edge(p) or p < 0 for o, p in cs):
+                    exp.append(None)
+                    continue
+                terms = model.brier_terms([p for o, p in cs], [o for o, p in cs])
+                exp.append((terms["bsrel"], terms["bsres"]))
+            points_at(J, ax, nm, exp, tol=1e-7)
+            pop = max(pop, sum(1 for e in exp if e is not None))
+        return pop
+
+
 @diagram("fss", max_inputs=2)
 class Fss(object):
     def args(self, case, spec):
